@@ -36,13 +36,18 @@ fn dim() -> impl Strategy<Value = usize> {
     prop_oneof![1 => Just(0usize), 2 => Just(1usize), 4 => 2usize..8, 3 => 8usize..64, 1 => 64usize..=256]
 }
 
+/// number of vectors: the property's 0..256 plus, rarely, thousands (purity has no size limit)
+fn count() -> impl Strategy<Value = usize> {
+    prop_oneof![14 => dim(), 1 => 1000usize..5000]
+}
+
 fn strategy() -> BoxedStrategy<Case> {
-    bx((any::<bool>(), dim(), dim(), 1usize..40, seed_strategy(), seed_strategy(), prop_oneof![2 => Just(0usize), 3 => 1usize..=16]).prop_map(
+    bx((any::<bool>(), count(), dim(), 1usize..40, seed_strategy(), seed_strategy(), prop_oneof![2 => Just(0usize), 3 => 1usize..=16]).prop_map(
         |(f32, n, d, n_more, seed, seed2, pool)| Case {
             pool,
             f32,
             n,
-            d,
+            d: if n > 256 { d.min(4) } else { d },
             n_more,
             seed,
             seed2,
